@@ -12,7 +12,9 @@ COQ_EXTRA = ["model/Show.vo"]
 RULE = ("grammar-directed formula strings (depth<=3 quick), 20% of them mutated by one insertion/replacement, token soup over a 45-symbol "
         "alphabet, and every string of length<=L over a 20-character alphabet (L=3 quick, 4 thorough); x intercept on/off x feature-flag "
         "subsets x variable lists; non-trivial = at least two tokens; distinct by (string, configuration)")
-EXPLANATION = ("the complete parsing pipeline (tokenizer, token rewriting, operator resolution, shunting-yard, term algebra, check_terms) is a total "
+EXPLANATION = ("theorem C14_no_internal_error_escapes: with MULTISTAGE off, for every string / flags / variable list / classifier the parser model never returns an "
+               "internal exception class (every AST the shunting-yard machine returns is well-sorted -- an invariant of the machine under the context rules of "
+               "'~' and '|' -- and the evaluator never gets stuck on a well-sorted AST); the complete parsing pipeline (tokenizer, token rewriting, operator resolution, shunting-yard, term algebra, check_terms) is a total "
                "Gallina function whose error type has an explicit constructor for every Python exception class the code can raise; theorems show which "
                "constructors are unreachable for all inputs; the function is evaluated in Coq on every case and must return exactly the implementation's "
                "outcome (term lists or exception class)")
